@@ -265,7 +265,7 @@ Definition stmt_end_ok (ts : list token) : bool :=
 (* token types whose parseStmt/parseModule arm is not the expression arm *)
 Definition stmt_keyword (t : Z) : bool :=
   existsb (Z.eqb t)
-    [tt_OpenBraceToken; tt_ConstToken; tt_VarToken; tt_LetToken; tt_IfToken; tt_ContinueToken; tt_BreakToken;
+    [tt_OpenBraceToken; tt_ConstToken; tt_VarToken; tt_IfToken; tt_ContinueToken; tt_BreakToken;
      tt_WithToken; tt_DoToken; tt_WhileToken; tt_ForToken; tt_SwitchToken; tt_FunctionToken; tt_AsyncToken;
      tt_ClassToken; tt_ThrowToken; tt_TryToken; tt_DebuggerToken; tt_ImportToken; tt_ExportToken;
      tt_ReturnToken; tt_YieldToken; tt_AwaitToken].
@@ -279,6 +279,17 @@ Fixpoint parse_stmt (n : nat) (ts : list token) {struct n} : res (stmt * list to
     | k :: rest =>
       if ty k =? tt_SemicolonToken then Ok (SEmpty, skip_semi rest)
       else if stmt_keyword (ty k) then OutFrag
+      else if ty k =? tt_LetToken then
+        (* case LetToken: a declaration when an identifier, yield, await, '[' or '{' follows; else the identifier `let` *)
+        match rest with
+        | c :: _ =>
+            if is_identifier (ty c) || (ty c =? tt_YieldToken) || (ty c =? tt_AwaitToken)
+               || (ty c =? tt_OpenBracketToken) || (ty c =? tt_OpenBraceToken) then OutFrag
+            else
+              '(e, r') <~ parse_suffix (fuel_for rest) true (EVar (data k)) prec_OpExpr primary rest ;;
+              if stmt_end_ok r' then Ok (SExpr e, skip_semi r') else Fail
+        | [] => Ok (SExpr (EVar (data k)), [])
+        end
       else if is_identifier (ty k) then
         match rest with
         | c :: r =>
